@@ -7,7 +7,7 @@ from pyvc.terms import I
 from pyvc.values import *  # noqa
 from pyvc.contract import Case, rk_dyn
 from pyvc.exec import LoopSpec
-from .prims import fcontract, S_, _avail, stream_error, generic_raise, buffer_same, LOOPS
+from .prims import fcontract, S_, _avail, stream_error, generic_raise, buffer_same, LOOPS, _bytes_left
 from .wrappers import Sub, Region, result_is, _abs_base
 from .classes import VariantDict
 from .specs import forall_range
@@ -88,5 +88,5 @@ def _scan_inv(L):
 _c = fcontract('NullTerminated', '_parse', [
     Case('ok', 'return', _guard_ok, ensures=_parse_ok, rkind=rk_dyn, modifies=['stream']),
     Case('fails', 'raise', lambda pre: t.not_(_guard_ok(pre)), ensures=_parse_bad, modifies=['stream']),
-], loops={'while True': LoopSpec(_scan_inv, variant=None, tags=('C08', 'C03'), havoc_kinds={}, modifies=())}, tags=('C08', 'C03', 'C06'))
+], loops={'while True': LoopSpec(_scan_inv, variant=_bytes_left, variant_tags=('C06',), tags=('C08', 'C03'), havoc_kinds={}, modifies=())}, tags=('C08', 'C03', 'C06'))
 _c.variants = [VariantDict(term_len=u) for u in UNITS]
